@@ -295,16 +295,17 @@ func readLoss() lossCounters {
 	if b, err := os.ReadFile("/proc/net/snmp"); err == nil {
 		var hdr []string
 		for _, ln := range strings.Split(string(b), "\n") {
-			if !strings.HasPrefix(ln, "Udp:") {
+			if !strings.HasPrefix(ln, "Udp:") && !strings.HasPrefix(ln, "Ip:") {
 				continue
 			}
 			f := strings.Fields(ln)
-			if hdr == nil {
+			if hdr == nil || hdr[0] != f[0] {
 				hdr = f
 				continue
 			}
 			for i := range f {
-				if i < len(hdr) && (hdr[i] == "InErrors" || hdr[i] == "RcvbufErrors" || hdr[i] == "SndbufErrors" || hdr[i] == "MemErrors") {
+				if i < len(hdr) && (hdr[i] == "InErrors" || hdr[i] == "RcvbufErrors" || hdr[i] == "SndbufErrors" ||
+					hdr[i] == "MemErrors" || hdr[i] == "OutDiscards" || hdr[i] == "InDiscards") {
 					v, _ := strconv.ParseInt(f[i], 10, 64)
 					lc.KernelUDP += v
 				}
@@ -345,6 +346,7 @@ func (a lossCounters) since(b lossCounters) (kernel int64, ingress int64, detail
 }
 
 type obs struct {
+	local    string
 	script   int
 	role     string // udp-dup | udp-other | tcp-dup
 	name     string
@@ -397,6 +399,7 @@ func TestFaultScripts(t *testing.T) {
 	margin := time.Duration(in.MarginMs) * time.Millisecond
 	budget := qt + margin
 
+	defer installEngineTrace()()
 	w, err := buildWorld(&in)
 	if err != nil {
 		res.Skip("world: %v", err)
@@ -480,6 +483,7 @@ func TestFaultScripts(t *testing.T) {
 		}
 		b, _ := q.Pack()
 		o.sent = time.Now()
+		o.local = c.LocalAddr().String()
 		if _, err := c.Write(b); err != nil {
 			return
 		}
@@ -655,13 +659,20 @@ func TestFaultScripts(t *testing.T) {
 			// shedding). Witnesses: the authoritative servers saw this client's own question (unique name),
 			// or nothing anywhere recorded a drop during the whole run.
 			rep["upstreamSawQuestion"] = upstreamSaw[strings.ToLower(o.name)]
-			rep["kernelUdpErrorsDuringRun"], rep["ingressDropsDuringRun"], rep["ingressDropDetail"] = lossK, lossI, lossDetail
+			rep["kernelErrorsDuringRun"], rep["ingressDropsDuringRun"], rep["ingressDropDetail"] = lossK, lossI, lossDetail
+			known, seen, sends := engineFate(o.local, o.id)
+			udp := strings.HasPrefix(o.role, "udp")
 			switch {
-			case o.role == "udp-other" && upstreamSaw[strings.ToLower(o.name)] > 0:
-				res.Violate("no-reply-admitted", fmt.Sprintf("script %d (%s): the %s query for %s reached the resolver (its question was asked upstream %d times) and the client got no reply within querytimeout+margin (%v)",
-					o.script, key, o.role, o.name, upstreamSaw[strings.ToLower(o.name)], budget), rep)
+			case udp && known && seen && sends == 0:
+				res.Violate("no-reply-admitted", fmt.Sprintf("script %d (%s): the UDP engine read the %s query for %s from %s (id %d) and released its slab without sending anything; no reply within querytimeout+margin (%v)",
+					o.script, key, o.role, o.name, o.local, o.id, budget), rep)
+			case udp && known:
+				// never reached the engine, or the engine did send: lost by the kernel, not by the server
+				res.Count(map[bool]string{true: "lost_after_send", false: "lost_before_ingress"}[seen], 1)
+				res.DriftNote("script %d (%s): %s query for %s unanswered at the client; engine trace: read=%v sends=%d (a datagram lost in transit)",
+					o.script, key, o.role, o.name, seen, sends)
 			case lossK == 0 && lossI == 0:
-				res.Violate("no-reply", fmt.Sprintf("script %d (%s): the %s query for %s got no reply within querytimeout+margin (%v); no datagram or connection was dropped anywhere during the run",
+				res.Violate("no-reply", fmt.Sprintf("script %d (%s): the %s query for %s got no reply within querytimeout+margin (%v); no datagram or connection was dropped anywhere on the machine during the run",
 					o.script, key, o.role, o.name, budget), rep)
 			default:
 				res.Count("lost_unattributed", 1)
